@@ -331,11 +331,11 @@ Section Steps.
   Qed.
 
   Lemma cl_canonical_transfer r1 r2 :
-    same_signed cov r1 r2 -> r_chunked r1 = r_chunked r2 -> In content_length cov ->
+    same_signed cov r1 r2 -> r_chunked r1 = r_chunked r2 -> r_clen r1 = r_clen r2 -> In content_length cov ->
     cl_canonical r2 = true -> cl_canonical r1 = true.
   Proof.
-    intros (A1&_&_&_&A5&A6) Hc Hin H. unfold cl_canonical, wire_content_length in *.
-    rewrite (A6 _ Hin), Hc, A1, (body_bytes_ext r1 r2 A5). exact H.
+    intros (A1&_&_&_&A5&A6) Hc Hl Hin H. unfold cl_canonical, wire_content_length in *.
+    rewrite (A6 _ Hin), Hc, Hl, A1. exact H.
   Qed.
 End Steps.
 
@@ -343,7 +343,7 @@ End Steps.
 Lemma at_sign_time_fields c parsed ident r0 :
   let rs := at_sign_time c parsed ident r0 in
   r_method rs = r_method r0 /\ r_path rs = r_path r0 /\ r_rawquery rs = r_rawquery r0 /\
-  r_fragment rs = r_fragment r0 /\ r_body rs = r_body r0 /\ r_chunked rs = r_chunked r0.
+  r_fragment rs = r_fragment r0 /\ r_body rs = r_body r0 /\ r_chunked rs = r_chunked r0 /\ r_clen rs = r_clen r0.
 Proof. destruct ident; simpl; repeat split; reflexivity. Qed.
 
 Definition hmac_part (covh : list str) (c : cfg) (r : request) : request :=
@@ -360,6 +360,8 @@ Proof.
 Qed.
 
 Lemma sign_chunked cv covh c r : r_chunked (sign cv covh c r) = r_chunked r.
+Proof. unfold sign. destruct (c_skip c), (c_hmac c), (c_signer c); reflexivity. Qed.
+Lemma sign_clen cv covh c r : r_clen (sign cv covh c r) = r_clen r.
 Proof. unfold sign. destruct (c_skip c), (c_hmac c), (c_signer c); reflexivity. Qed.
 
 Lemma hop_keys_ext h1 h2 : hvals connection h1 = hvals connection h2 -> hop_keys h1 = hop_keys h2.
@@ -420,7 +422,7 @@ Section Main.
     cov_ok cov = true -> (forall k, In k cov -> In k protected) -> same_signed cov rr rs.
   Proof.
     intros Hcov Hsub.
-    destruct (at_sign_time_fields c parsed ident r0) as (F1&F2&F3&F4&F5&F6). fold rs in F1, F2, F3, F4, F5, F6.
+    destruct (at_sign_time_fields c parsed ident r0) as (F1&F2&F3&F4&F5&F6&F7). fold rs in F1, F2, F3, F4, F5, F6, F7.
     set (r1 := sign cv covh c rs).
     set (r2 := director c r1).
     set (r3 := rp_edits ip (r_headers rs) r2).
@@ -445,6 +447,7 @@ Section Main.
           intros k Hk. destruct S3 as (_&_&_&_&_&A6), S2 as (_&_&_&_&_&B6), S1 as (_&_&_&_&_&C6).
           rewrite A6, B6, C6 by exact Hk. reflexivity.
         + unfold r3, r2, r1. cbn [r_chunked rp_edits director]. apply sign_chunked.
+        + unfold r3, r2, r1. cbn [r_clen rp_edits director]. apply sign_clen.
         + exact Hin.
         + exact Hcl. }
     eapply same_signed_trans; [exact S4 | exact S30].
@@ -520,7 +523,7 @@ Proof.
   cbn [r_body rp_edits director].
   assert (E : forall r, r_body (sign cv covh c r) = r_body r).
   { intros r. unfold sign. destruct (c_skip c), (c_hmac c), (c_signer c); reflexivity. }
-  rewrite E. destruct (at_sign_time_fields c parsed ident r0) as (_&_&_&_&F5&_). rewrite F5. reflexivity.
+  rewrite E. destruct (at_sign_time_fields c parsed ident r0) as (_&_&_&_&F5&_&_). rewrite F5. reflexivity.
 Qed.
 
 (* ------------------------------------------------------------------ tampering: single-field injectivity *)
@@ -795,7 +798,8 @@ Definition s_ip : str := [49;48;46;48;46;48;46;55]. (* "10.0.0.7" *)
 
 Definition mk_req (m : str) (h : headers) (p q : str) (b : option str) : request :=
   {| r_method := m; r_host := s_app; r_headers := h; r_path := p; r_rawquery := q; r_fragment := [];
-     r_body := b; r_chunked := false; r_sso_sig := None; r_kid := None; r_gap_sig := None |}.
+     r_body := b; r_chunked := false;
+     r_clen := N.of_nat (length (match b with Some x => x | None => [] end)); r_sso_sig := None; r_kid := None; r_gap_sig := None |}.
 
 Definition ex_cfg : cfg :=
   {| c_signer := Some 1; c_hmac := Some [107;101;121]; c_skip := false; c_pass_token := false;
